@@ -352,7 +352,7 @@ func SuperMain(args []string) int {
 	obs := map[string]int64{}
 	distinct := map[string]bool{}
 	var samples []any
-	var viols []foundViolation
+	var viols, early []foundViolation
 	ran := 0
 	files, _ := filepath.Glob(filepath.Join(work, "journal.*.jsonl"))
 	sort.Strings(files)
@@ -365,6 +365,17 @@ func SuperMain(args []string) int {
 		sc.Buffer(make([]byte, 1<<24), 1<<24)
 		for sc.Scan() {
 			line := sc.Bytes()
+			if strings.HasPrefix(string(line), `{"early_violation"`) || strings.HasPrefix(string(line), `{"case"`) && strings.Contains(string(line), `"early_violation"`) {
+				var ev struct {
+					Key    string `json:"early_violation"`
+					Detail string `json:"detail"`
+					Case   string `json:"case"`
+				}
+				if json.Unmarshal(line, &ev) == nil && ev.Key != "" {
+					early = append(early, foundViolation{Key: ev.Key, Detail: ev.Detail, Case: ev.Case})
+				}
+				continue
+			}
 			if !strings.HasPrefix(string(line), `{"idx"`) {
 				continue
 			}
@@ -402,6 +413,17 @@ func SuperMain(args []string) int {
 		fh.Close()
 	}
 	viols = append(viols, crashes...)
+	// verdicts written through by cases that never delivered their result record
+	have := map[string]bool{}
+	for _, v := range viols {
+		have[v.Key] = true
+	}
+	for _, v := range early {
+		if !have[v.Key] {
+			have[v.Key] = true
+			viols = append(viols, v)
+		}
+	}
 
 	// race reports
 	raceReports := 0
